@@ -406,6 +406,15 @@ def r7_accept_implies_verified(run):
              "only_valid_cert is")
     c01.r7_accept_implies_verified(run, rule="R7", only_valid_cert="U",
                                    construct_suffix="::only_valid_cert-any")
+    # the same verifier serves requests: the signature checked must be the
+    # request's own (single Reference naming its ID) - C01.R3
+    before = len(run.results)
+    saved = dict(run.rules)
+    c01.r3_reference_names_own_id(run)
+    for r in run.results[before:]:
+        r["rule"] = "R7"
+    run.rules.clear()
+    run.rules.update(saved)
 
 
 def r8_receiver_addresses(run, ctx):
